@@ -31,4 +31,15 @@ def main(argv=None):
 
 
 if __name__ == "__main__":
-    sys.exit(main())
+    try:
+        code = main()
+    except SystemExit:
+        raise
+    except BaseException:  # noqa: BLE001 - an error of the machinery is not a verdict about the property
+        import traceback
+
+        traceback.print_exc()
+        print("CHECK-ERROR: the verification machinery itself failed (exit status 3); this is not a verdict",
+              flush=True)
+        sys.exit(3)
+    sys.exit(code)
